@@ -64,6 +64,75 @@ CLAIMED = {
     ),
 }
 
+CLAIMED.update({
+    "C01": dict(
+        technique="static analysis: path/term tables of binary_op / unary_op / Conditional / ContinuousConditional, grammar-model comparison of the precedence ladder and function vocabulary, printer-resolution table (sympy MRO + ast of gotranx overrides), STATE slot family",
+        text="Decides structural necessary conditions of the front end and of rhs emission for all models at once: operator table and fold direction, precedence ladder, function vocabulary bound to the right sympy objects, conditional builders, definition-before-use, time aliases, NumPy printer coverage of every producible class, and that each derivative lands in its state's slot. It does NOT decide numerical equality to rounding.",
+        note="sympy's inherited printers are trusted as recorded in the vetted table (sympy 1.14.0); numerics are not decided.",
+        ref="3/C01",
+    ),
+    "C02": dict(
+        technique="static analysis: C printer resolution table with vetted verdicts, ast checks of gotranx overrides (Mod, Piecewise, Float), regex-AST check of post-processing, C template / count / slot-family checks",
+        text="Decides necessary conditions: every producible class is printed by a vetted value-preserving method or an analysed gotranx method (Mod with the divisor's sign, ternary conditionals), post-processing only rewrites whole words, index chains / counts / const formals / slot layout have the required shape. The known integer-division defect is reported as a KNOWN-FINDING. That the C code compiles and agrees numerically is not decided.",
+        note="Only a compiler decides compilation; numerics not decided; printer table for sympy 1.14.0.",
+        ref="3/C02",
+    ),
+    "C03": dict(
+        technique="static analysis: size-class analysis of num_return_values vs the extent of the filled array, template skeleton checks, JaxPrinter rewrite rule, emitted-API table",
+        text="Decides that every method hands the JAX template the extent of the array it fills, that the template returns exactly _values_0.._values_{n-1} in order and JaxPrinter rewrites exactly the stores into `values`, that templates are functional (no in-place stores) and that every numpy.<name> a print method can emit is callable that way under jax.numpy with n-ary And/Or keeping all operands. Importability / jit / numerics are not decided.",
+        note="jax itself is not executed.",
+        ref="3/C03",
+    ),
+    "C08": dict(
+        technique="static analysis: guard-structure checks (registry scope, redefinition raise before set merge, recorded kinds, predicate), pairing guards, frozen table of every except clause",
+        text="Decides that the guards exist, see every definition and cannot be bypassed: redefinitions raise before atoms are merged in sets, gather_atoms records all four kinds (tagged), check_components runs first for every component, d<x>_dt always goes through find_state, undefined symbols become MissingSymbolError, and no except clause outside the vetted table can swallow an error. That every concrete ill-formed text raises is not decided.",
+        note="lark / graphlib behaviour trusted.",
+        ref="3/C08",
+    ),
+    "C11": dict(
+        technique="static analysis: writer-vocabulary vs grammar-vocabulary (printer resolution table x grammar model), operator table, coverage of the writer helpers",
+        text="Decides that everything the writer can emit for a producible class is accepted by ode.lark with the right head per operator and all operands, that all sections / atoms / annotations are written unmodified, header-less expressions first, and that the reader applies functions to all arguments. Numerical equality after reload is not decided.",
+        note="sympy StrPrinter rows as vetted for 1.14.0.",
+        ref="3/C11",
+    ),
+    "C13": dict(
+        technique="static analysis: definition of missing_variables, sibling agreement of the four generator methods and two templates, path enumeration of the missing_values loops (counter discipline)",
+        text="Decides that missing variables are exactly used-minus-defined in sorted numbering, that rhs / monitor_values / missing_values / scheme all unpack them and pass the formal, that missing_values can export states, parameters and every assignment at the requested slot with the early exit after the store, that the jax template returns slots in order, and that model - C / C.to_ode() keep the right components. Numerical agreement of sub-models is not decided.",
+        note="",
+        ref="3/C13",
+    ),
+    "C14": dict(
+        technique="static analysis: array-safety lint over the NumPy printer resolution table (vetted inherited methods + fragments of gotranx methods), class-table constant folding, shape-template checks",
+        text="Decides that no scalar-only or batch-reducing construct can be emitted for any producible class (conditional expressions, and/or/not, math.*, reductions such as numpy.all / allclose / .reduce), that a surviving Not is normalised before printing, and that result shapes use the batch axis states.shape[1] for all three Shape members. Column-wise numerical equality is not decided.",
+        note="sympy 1.14.0 vetted table.",
+        ref="3/C14",
+    ),
+    "C15": dict(
+        technique="static analysis: clone-consistency and bookkeeping checks of the Myokit converter (rename sites, substitution chains, initial-value lookup, two-pass export)",
+        text="Decides only necessary bookkeeping conditions of the converter. The main content of the property - the generated rhs equals Myokit's own evaluation - is NOT decided and cannot be decided statically; this check is claimed for the clauses named in its evidence only.",
+        note="Myokit is not executed; dynamics are not decided.",
+        ref="3/C15",
+    ),
+    "C16": dict(
+        technique="static analysis: shape of the singularity rewrite (linear use of the original expression), skip predicate, search loop, lookup scope",
+        text="Decides that the rewrite uses the original expression once on the regular branch (today it does not: KNOWN-FINDING, a test pins the defective output), that exactly the infinite singularities are skipped, that the search covers every stateful dependency model-wide without early exit, and that nothing changes without singularities. Correctness of sympy's limits and numerical agreement are not decided.",
+        note="sympy.singularities / limit trusted.",
+        ref="3/C16",
+    ),
+    "C17": dict(
+        technique="static analysis: taint of free text (comment / unit strings) into evaluators, handler breadth, regex star-height, grammar-model checks of the comment terminal and tagged blocks, who-may-read table for annotation attributes",
+        text="Decides which code can see comment / annotation text and what it may do with it: evaluators reached (three KNOWN-FINDINGs: pint evaluates the text), every failure treated as 'not a unit', no super-linear regex or recursion on it; the grammar makes comments one line-bounded terminal and accepts comment / blank lines inside tagged blocks; no generator, template or scheme reads unit / description / comment. 'Never hangs' as such is not decided.",
+        note="pint behaviour as observed for 0.26.",
+        ref="3/C17",
+    ),
+    "C19": dict(
+        technique="static analysis: reserved-name extraction from template skeletons / argument tables vs presence of a guard; whole-word regex check; grammar terminals; printed-text-only interpolation lint over print methods",
+        text="Decides the set of names the generated code uses for itself and whether a guard covers it (today none: KNOWN-FINDING), that post-processing cannot corrupt identifiers, that only the exact token `pi` is the constant, that the Myokit importer renames consistently, and that print methods only interpolate printed text (sympy's reserved-word renaming cannot be bypassed). Behaviour per identifier is not decided.",
+        note="",
+        ref="3/C19",
+    ),
+})
+
 NOT_YET = "check under construction (see DESIGN.md); not claimed yet"
 
 fix_commits = subprocess.run(["git", "-C", "/repo", "log", "--format=%H %s"], capture_output=True, text=True).stdout.splitlines()
